@@ -5,6 +5,7 @@ positions FROM, JOIN, subquery in WHERE / select list / CASE operand / function 
 UPDATE..FROM, DELETE; qualifier spellings int1 / INT1 / Int1; six catalog forms.  Monitor: boundary of plan_query;
 reflective collection of identifiers per step.  Oracle: generator ground truth (marker -> home) on every fetch / DML /
 apply-predictor step, and metamorphic equality of the routing map across spellings and catalog forms."""
+import copy
 import re
 
 from vf import core, monitors
@@ -62,7 +63,7 @@ def build(r, style, kind=None):
     kind = kind or r.choice(['from', 'join', 'join3', 'where-sub', 'target-sub', 'case-sub', 'func-sub', 'cte', 'insert-select', 'update-from',
                              'delete-sub', 'model', 'model-version', 'model-2tables', 'union', 'where-sub-join', 'target-sub-join',
                              'model-twice', 'model-twice', 'qualified-cols', 'delete-qualified', 'update-qualified', 'model-select',
-                             'model-sub-twice'])
+                             'model-sub-twice', 'cte-named-like-foreign-table'])
     c.positions.add(kind)
     t1 = c.tbl()
     if kind == 'from':
@@ -98,6 +99,18 @@ def build(r, style, kind=None):
         return f'DELETE FROM {t1} WHERE k IN ({c.sub("s1")})', c
     if kind == 'union':
         return f'SELECT a1.c FROM {t1} AS a1 UNION SELECT a2.c FROM {c.tbl()} AS a2', c
+    if kind == 'cte-named-like-foreign-table':
+        # a CTE whose name is also the name of a real table of ANOTHER integration, which the statement reads by its full name
+        home1 = c.homes[t1.split('.')[1]]
+        other = r.choice([i for i in INTS if i != home1])
+        t2 = c.tbl(other)
+        name = t2.split('.')[1]
+        form = r.choice(['from', 'where-sub', 'both'])
+        if form == 'from':
+            return f'WITH {name} AS (SELECT s1.c FROM {t1} AS s1 WHERE s1.k > 1) SELECT a1.c FROM {t2} AS a1', c
+        if form == 'where-sub':
+            return f'WITH {name} AS (SELECT s1.c FROM {t1} AS s1) SELECT a1.c FROM {c.tbl(home1)} AS a1 WHERE a1.k IN (SELECT x.c FROM {t2} AS x)', c
+        return f'WITH {name} AS (SELECT s1.c FROM {t1} AS s1) SELECT a1.c, x.c FROM {t2} AS a1 JOIN {name} AS x ON a1.k = x.c', c
     # columns written with the full integration.table.column path (no alias)
     if kind == 'qualified-cols':
         return f'SELECT {t1}.c, {t1}.k AS kk FROM {t1} WHERE {t1}.k = 1 AND {t1}.x > 2 ORDER BY {t1}.c', c
@@ -131,8 +144,17 @@ def build(r, style, kind=None):
     return f'SELECT a1.c, m.y FROM {frm} JOIN {mref} AS m WHERE a1.k > 1', c
 
 
-def model_metadata(case):
-    return [{'name': m, 'integration_name': p, 'timeseries': False, 'to_predict': ['y']} for m, (p, v) in case.models.items()]
+def model_metadata(case, variant=0):
+    out = [{'name': m, 'integration_name': p, 'timeseries': False, 'to_predict': ['y']} for m, (p, v) in case.models.items()]
+    if variant:
+        # a catalog with further models around the one the query uses; a model of the default project may leave its project out
+        for rec in out:
+            if rec['integration_name'] == 'mindsdb':
+                del rec['integration_name']
+        out = ([{'name': 'zz_before', 'integration_name': 'proj', 'timeseries': False, 'to_predict': ['y']}] + out +
+               [{'name': 'zz_after', 'integration_name': 'proj', 'timeseries': True, 'window': 2, 'order_by_column': 'ts', 'group_by_columns': []},
+                {'name': 'zz_last', 'timeseries': False, 'to_predict': ['y']}])
+    return out
 
 
 def catalog(form, case, default_ns):
@@ -143,7 +165,7 @@ def catalog(form, case, default_ns):
         integrations = [{'name': n, 'type': 'data'} for n in ints]
         if form in (2, 4):
             integrations.append({'name': 'proj', 'type': 'project'})
-    pm = model_metadata(case)
+    pm = model_metadata(case, variant=form in (1, 3, 4))
     if form in (3, 5):
         pm = {m['name']: m for m in pm}
     kw = dict(integrations=integrations, predictor_metadata=pm)
@@ -317,7 +339,28 @@ def run_shard(ctx):
                 rows = routing(plan)
                 maps[(style, form)] = canon(rows)
                 pos = next(iter(case.positions))
-                for sig, det in judge(case, rows, default_ns):
+                verdicts = judge(case, rows, default_ns)
+                if verdicts and pos == 'cte-named-like-foreign-table':
+                    # executable models of the two listed mechanisms (C10-F1 / C10-F2); a complaint they do not reproduce stays as it is
+                    stripped = copy.deepcopy(plan)
+                    for st2 in iter_steps(stripped.steps):
+                        if type(st2).__name__ == 'FetchDataframeStep' and getattr(st2.query, 'cte', None) is not None:
+                            st2.query.cte = None
+                    name = re.search(r'WITH (\w+) AS', text).group(1).lower()
+                    clash = default_ns is not None and case.homes.get(name) == default_ns
+                    about_name = lambda vs: [v_ for v_ in vs if v_[1].get('marker') == name]
+                    rest = [v_ for v_ in verdicts if v_ not in about_name(verdicts)] if clash else verdicts
+                    rest_after = judge(case, routing(stripped), default_ns)
+                    rest_after = [v_ for v_ in rest_after if v_ not in about_name(rest_after)] if clash else rest_after
+                    if not rest_after:
+                        # every complaint is about the clashing name (F2) or disappears once the WITH clause is not shipped (F1)
+                        out_v = []
+                        if clash and about_name(verdicts):
+                            out_v.append(({'defect': 'cte-shadows-default-namespace-table'}, about_name(verdicts)[0][1]))
+                        if rest:
+                            out_v.append(({'defect': 'cte-definition-shipped-with-fetch'}, rest[0][1]))
+                        verdicts = out_v
+                for sig, det in verdicts:
                     sig = dict(sig, position=pos, spelling=style if style == 'lower' else 'non-lower')
                     det.update({'text': text, 'catalog_form': form, 'default_namespace': default_ns,
                                 'routing': [repr(x)[:160] for x in rows][:10]})
